@@ -87,7 +87,7 @@ def gen_regdata(rng):
         elif ty == 9:
             values.append(["f64", int.from_bytes(struct.pack("<d", rng.uniform(-1e6, 1e6)), "little")])
         elif ty in (11, 12):
-            values.append(["str", [rng.randrange(0x20, 0x7F) for _ in range(rng.randrange(0, 9))]])
+            values.append(["str", [rng.randrange(0x20, 0x7F) for _ in range(rng.choice([0, 1, 7, 15, 16, 17, 24, 40, rng.randrange(0, 9)]))]])
         elif ty == 15:
             values.append(["ip", [rng.randrange(256) for _ in range(4)]])
         else:
